@@ -239,7 +239,7 @@ ANCHORED_COMPOSITES = True
 # Paint traces of variable COLRv1 glyphs at non-default locations: scale_upem scales every delta of the
 # COLR VarStore, also those of variable paint fields that live inside the PaintScale wrapper or are not
 # lengths (pending finding C17-N9, notes/pending_findings.md).  Switch on once fixed or registered.
-COLR_VAR_PAINT_TRACE = False
+COLR_VAR_PAINT_TRACE = True
 PERMS = ["random", "reverse-tail", "transpose", "rotate"]
 MODES = ["bin-default", "bin-lazy", "bin-eager", "ttx"]
 TARGETS = ["half", "double", "1000<->2048", "plus1", "16384", "ratio"]
